@@ -317,6 +317,14 @@ def thInit (lowest : Bool) : Option Rat := if lowest then none else some dblMin
 def thompson (lowest : Bool) (cnt : Nat → Nat) (val : Nat → Rat) (n : Nat) : Nat :=
   thLoop cnt val n 0 0 (thInit lowest)
 
+/-! ## Monte-Carlo tables of ThompsonSamplingPolicy / TopTwoThompsonSamplingPolicy / T3CPolicy:
+    `getPolicy` : `retval[sampleAction()] += 1.0` (`trials` times), then `retval /= retval.sum()`;
+    `getActionProbability(a)` : `selected / trials` with `selected` = number of the `trials` fresh samples equal to `a`.
+    `cnt a` = how often `a` was sampled. -/
+
+def mcTable (n : Nat) (cnt : Nat → Nat) : Nat → Rat := fun a => (cnt a : Rat) / sumTo n (fun i => (cnt i : Rat))
+def mcQuery (trials selected : Nat) : Rat := (selected : Rat) / (trials : Rat)
+
 /-- `std::find` on the list of allowed actions: index of the first occurrence -/
 def findIdx (a : Nat) : List Nat → Option Nat
   | [] => none
